@@ -2,6 +2,13 @@
 search, and the projection of a detection signature each property's theorem speaks about."""
 
 NAMES_RUN = {"level": "names", "args_quick": [], "args_thorough": []}
+MD_RUN = {"level": "md", "args_quick": ["--n", "400"], "args_thorough": ["--n", "12000"]}
+MD_RULE = ("; md level: md::mess_ratio (uncached body) against Model/Md.v -- the eight detector plugins, the checkpoint periods and the early exit -- "
+           "with the two per-character oracles (ICU flag word, remove_accent) served by the library, bit for bit, on mojibake (corpus texts encoded in "
+           "one encoding and decoded with another), corpus slices, lengths on the 510/511/1023/1024 and 32/64/128 boundaries, random code points of "
+           "14 blocks, long / camel-cased / accent-heavy words, punctuation and control-character soups, interleaved scripts, x thresholds "
+           "{0 ... 10}; utils::is_suspiciously_successive_range against Md.suspicious on ALL 280 x 280 pairs of range names (and None); the model's "
+           "binary32 literals against the library's; MessOK (non-NaN, non-negative) asserted on every real answer")
 
 
 def detect_run(focus, nq, nt, bigq=0, bigt=6, maxq=6000, maxt=60000):
@@ -84,13 +91,16 @@ PROPS["C04"] = {
     "module": "PropC04",
     "theorems": ["C04_threshold", "C04_coherence_range", "C04_percents", "C04_f32_not_ge_lt",
                  "C04_threshold_binary32", "C04_coherence_range_binary32", "C04_float_laws_hold_for_binary32",
-                 "C04_valid_utf8_yields_match"],
-    "runs": [detect_run("C04", 300, 5000, bigq=1, bigt=8)],
+                 "C04_valid_utf8_yields_match", "C04_mess_never_nan_or_negative", "C04_threshold_mess_modelled", "C04_md_shape_pinned"],
+    "model_targets": ["Model/Md32.vo"],
+    "runs": [detect_run("C04", 300, 5000, bigq=1, bigt=8), MD_RUN],
     "search": detect_search("C04"),
     "rule": DETECT_RULE + "; thresholds drawn from {0, 0.01, 0.02, 0.05, 0.1, 0.2, 0.3, 0.5, 0.8, 1} and their binary32 neighbours, "
             "fall-back and pre-emptive switches both ways; every mess / coherence answer of the real primitives is checked against "
-            "the MessOK / CohOK contracts the theorems assume",
-    "assumptions": ["MessOK: mess_ratio returns a non-NaN non-negative f32 (asserted on every oracle answer)",
+            "the MessOK / CohOK contracts the theorems assume" + MD_RULE,
+    "assumptions": ["MessOK: mess_ratio returns a non-NaN non-negative f32 -- a hypothesis of the generic theorem (asserted on every oracle answer) and PROVED of "
+                    "the mess-detector model Model/Md.v for binary32 (C04_mess_never_nan_or_negative, C04_threshold_mess_modelled); the model's "
+                    "remaining oracles are the per-character ICU flag word and remove_accent",
                     "MergeOK: merged language scores are non-NaN and in [0,1] (asserted on every oracle answer)",
                     "DecodeLen: a strict decode yields at most one character per byte (asserted on every oracle answer)",
                     "FloatLaws (Proofs/FloatLaws.v) is a hypothesis of the generic theorems and is PROVED of the Flocq binary32 instance "
@@ -102,8 +112,10 @@ PROPS["C04"] = {
 
 PROPS["C13"] = {
     "module": "PropC13",
-    "theorems": ["C13_covering_windows_agree", "C13_chaos_function", "C13_same_text_same_chaos", "C13_chaos_function_binary32"],
-    "runs": [detect_run("C13", 260, 4000)],
+    "theorems": ["C13_covering_windows_agree", "C13_chaos_function", "C13_same_text_same_chaos", "C13_chaos_function_binary32",
+                 "C13_mess_is_bank_sum_of_a_prefix", "C13_mess_full_scan_when_threshold_not_reached"],
+    "model_targets": ["Model/Md32.vo"],
+    "runs": [detect_run("C13", 260, 4000), MD_RUN],
     "search": detect_search("C13"),
     "rule": DETECT_RULE + "; focus C13: every case that fits its window is re-run with (1, len) and another random covering pair; "
             "and >= 60 texts are encoded into every supported encoding that round-trips them (with / without BOM), probed alone with "
@@ -228,11 +240,12 @@ PROPS["C19"] = {
 PROPS["C03"] = {
     "module": "PropC03",
     "theorems": ["C03_sorted_unique", "C03_unicode_ranges_order_independent", "C03_marks_order_independent",
-                 "C03_marks_keys_distinct", "C03_coherence_function_of_visited"],
-    "model_targets": ["Model/Cd.vo"],
+                 "C03_marks_keys_distinct", "C03_coherence_function_of_visited",
+                 "C03_suspicious_keyword_clause_is_set_level", "C03_suspicious_range_symmetric"],
+    "model_targets": ["Model/Cd.vo", "Model/Md32.vo"],
     "runs": [{"kind": "launches", "level": "launches", "launches_quick": 3, "launches_thorough": 16,
               "args_quick": ["--extra", "300", "--rounds", "4"], "args_thorough": ["--extra", "3000", "--rounds", "32"]},
-             CD_RUN, detect_run("C03", 150, 2000)],
+             CD_RUN, MD_RUN, detect_run("C03", 150, 2000)],
     "search": None,
     "rule": "the 428 corpus files + 300 generated multi-script texts (two or three corpus texts of different scripts glued) are detected in "
             "3 fresh processes (each launch draws fresh ahash seeds), 4 times per process with the memo caches flushed in between (new map "
